@@ -11,9 +11,10 @@ import numpy as np
 from common import *
 
 ID = 'C03'
-COQ_FILES = ['Model/Distance.v', 'Proofs/DistanceBase.v', 'Proofs/DistanceFloyd.v', 'Proofs/DistanceBin.v',
+COQ_FILES = ['Model/Distance.v', 'Model/DistanceExt.v', 'Model/Paths.v', 'Proofs/DistanceBase.v', 'Proofs/DistanceFloyd.v', 'Proofs/DistanceBin.v',
              'Proofs/DistanceOther.v', 'Proofs/DistanceReach.v', 'Proofs/DistanceWei.v', 'Proofs/DistanceFull.v',
-             'Proofs/DistanceBFS.v', 'Proofs/DistanceAgree.v', 'Proofs/DistanceSimple.v', 'Properties/C03.v']
+             'Proofs/DistanceBFS.v', 'Proofs/DistanceAgree.v', 'Proofs/DistanceSimple.v', 'Proofs/Paths.v', 'Proofs/DistanceHopsPath.v',
+             'Proofs/DistanceExt.v', 'Properties/C03.v']
 THEOREMS = ['C03_floyd_correct', 'C03_floyd_diag_zero', 'C03_floyd_reach_iff_finite', 'C03_floyd_hops_min_path',
             'C03_floyd_transforms', 'C03_distance_bin_correct', 'C03_distance_bin_diag_zero', 'C03_distance_bin_inf_iff',
             'C03_agree_floyd_bin', 'C03_agree_any', 'C03_distance_wei_correct', 'C03_agree_wei_floyd', 'C03_distance_wei_diag_zero',
@@ -22,7 +23,9 @@ THEOREMS = ['C03_floyd_correct', 'C03_floyd_diag_zero', 'C03_floyd_reach_iff_fin
             'C03_breadthdist_correct', 'C03_breadthdist_min_dist', 'C03_breadthdist_reach_flag',
             'C03_reachdist_correct', 'C03_reachdist_min_dist', 'C03_shortest_walk_simple',
             'C03_agree_breadth_reach', 'C03_agree_binary_all', 'C03_offdiag_pairs', 'C03_charpath_mean', 'C03_charpath_mean_inverse',
-            'C03_efficiency_bin_mean_inverse', 'C03_efficiency_wei_mean_inverse', 'C03_rout_efficiency_mean_inverse']
+            'C03_efficiency_bin_mean_inverse', 'C03_efficiency_wei_mean_inverse', 'C03_rout_efficiency_mean_inverse',
+            'C03_floyd_transforms_hops', 'C03_charpath_general', 'C03_charpath_mean_spec', 'C03_charpath_legacy_agrees',
+            'C03_charpath_finite_pairs', 'C03_charpath_default_total', 'C03_distance_inv_copies', 'C03_efficiency_own_loops']
 RULE = ('binary and length matrices, directed and undirected, n=1..8: exhaustive (all digraphs n<=3 quick / n<=4 thorough, '
         'all undirected graphs n<=4 quick / n<=5 thorough) + structured families (ER at 4 densities, ring, star, path, complete, '
         'disjoint unions, isolated nodes, directed cycle + chords, tree + chords) with integer lengths from {1},{1,2},{1..4} '
@@ -423,7 +426,8 @@ def charpath_sequence(ctx, bct, dist, n, case, B_=None):
     seen = set()
     for (dg, inf_) in order:
         with np.errstate(all='ignore'):
-            l_, e_ = call(bct.charpath, Dt, include_diagonal=dg, include_infinite=inf_)[:2]
+            l_, e_, ecc_, rad_, dia_ = call(bct.charpath, Dt, include_diagonal=dg, include_infinite=inf_)
+        check_ecc(ctx, [[0 if s == t else dist[s][t] for t in range(n)] for s in range(n)], n, dg, inf_, ecc_, rad_, dia_, case)
         if (dg, inf_) not in orc:
             orc[(dg, inf_)] = charpath_oracle(dist, n, dg, inf_)
         lam, eff = orc[(dg, inf_)]
@@ -438,6 +442,102 @@ def charpath_sequence(ctx, bct, dist, n, case, B_=None):
         if B_ is not None and (dg, inf_) not in seen:
             seen.add((dg, inf_))
             B_.add('charpath ' + enc_mat(Dt_to_opt(dist), enc_oq) + ' %d %d' % (int(dg), int(inf_)), 'charpath', case, (l_, e_))
+    check_charpath_defaults(ctx, bct, Dt, lambda dg, inf_: orc.get((dg, inf_)) or charpath_oracle(dist, n, dg, inf_), case)
+
+
+def check_charpath_defaults(ctx, bct, Dt, oracle, case):
+    """charpath called with its arguments left out: the documented defaults are include_diagonal=False, include_infinite=True
+    (a changed default is invisible to calls that pass both flags)"""
+    for kw, flags in (({}, (False, True)), ({'include_diagonal': True}, (True, True)), ({'include_infinite': False}, (False, False))):
+        with np.errstate(all='ignore'):
+            l_, e_ = call(bct.charpath, Dt, **kw)[:2]
+        lam, eff = oracle(*flags)
+        ctx.check(fclose(l_, lam) and fclose(e_, eff), 'charpath:default-arguments',
+                  'charpath(D%s) returned (%r, %r); with the documented defaults (include_diagonal=False, include_infinite=True) for the omitted '
+                  'arguments the mean / mean inverse are (%s, %s)' % (''.join(', %s=%s' % kv for kv in kw.items()), float(l_), float(e_), lam, eff), case)
+
+
+def ecc_oracle(Dv, n, dg, inf_):
+    """eccentricity = largest selected entry of each row (None: nothing selected in the row); Dv entries: number, INF or None (nan)"""
+    out = []
+    for s in range(n):
+        row = [Dv[s][t] for t in range(n) if (dg or s != t) and Dv[s][t] is not None and (inf_ or Dv[s][t] != INF)]
+        out.append(max(row) if row else None)
+    return out
+
+
+def check_ecc(ctx, Dv, n, dg, inf_, ecc_, rad_, dia_, case):
+    """the three further outputs of charpath: eccentricity per node (max over the selected entries of its row), radius = min,
+    diameter = max.  Rows with nothing selected (an isolated node with include_infinite=False) are not judged: numpy's masked
+    maximum leaves the fill value 1e20 there."""
+    want = ecc_oracle(Dv, n, dg, inf_)
+    tag = '[include_diagonal=%s,include_infinite=%s]' % (dg, inf_)
+    ecc_ = np.asarray(ecc_, dtype=float).ravel()
+    if ecc_.shape != (n,):
+        ctx.fail('charpath:eccentricity', 'ecc has shape %s' % (ecc_.shape,), case); return
+    for s in range(n):
+        if want[s] is None:
+            ctx.count('charpath:ecc-row-with-nothing-selected'); continue
+        if not (float(ecc_[s]) == float(want[s])):
+            ctx.fail('charpath:eccentricity', 'ecc[%d]=%r, largest selected distance from node %d is %s %s' % (s, float(ecc_[s]), s, want[s], tag), case)
+            return
+    if all(w is not None for w in want) and n >= 1:
+        ctx.check(float(rad_) == float(min(want)), 'charpath:radius', 'radius=%r, smallest eccentricity %s %s' % (float(rad_), min(want), tag), case)
+        ctx.check(float(dia_) == float(max(want)), 'charpath:diameter', 'diameter=%r, largest eccentricity %s %s' % (float(dia_), max(want), tag), case)
+
+
+def enc_dval(x):
+    return '0' if x is None else ('1' if x == INF else '2 ' + enc_q(x))
+
+
+def do_charpath_x(ctx, bct, n, B_):
+    """charpath on matrices that contain inf AND nan entries and a nonzero diagonal, every flag combination and the default
+    arguments; oracle: the property text (mean / mean inverse over the selected entries), model: the statement-level
+    charpath_x (C03_charpath_general).  Entries: None = nan, INF, or a small non-negative integer / dyadic."""
+    r = ctx.nprng
+    pn, pi, pz = [(0.0, 0.3, 0.0), (0.15, 0.2, 0.1), (0.3, 0.0, 0.0), (0.1, 0.5, 0.2), (0.0, 0.0, 0.0)][int(r.randint(5))]
+    def entry(diag):
+        u = r.rand()
+        if u < pn:
+            return None
+        if u < pn + pi:
+            return INF
+        if diag and r.rand() < 0.6:
+            return 0
+        if r.rand() < pz:
+            return 0
+        return int(r.randint(1, 6)) if r.rand() < 0.8 else F(int(r.randint(1, 12)), 4)
+    Dv = [[entry(i == j) for j in range(n)] for i in range(n)]
+    case = {'kind': 'charpath-nan-inf', 'D': [[('nan' if x is None else ('inf' if x == INF else str(x))) for x in row] for row in Dv]}
+    ctx.case(case, nontrivial=any(x is not None and x != INF for row in Dv for x in row))
+    ctx.count('charpathx:n=%d' % n)
+    Dt = np.array([[(np.nan if x is None else float(x)) for x in row] for row in Dv], dtype=float).reshape(n, n)
+    D0 = Dt.copy()
+
+    def oracle(dg, inf_):
+        vals = [Dv[s][t] for s in range(n) for t in range(n)
+                if (dg or s != t) and Dv[s][t] is not None and (inf_ or Dv[s][t] != INF)]
+        if not vals:
+            return None, None
+        lam = INF if INF in vals else F(sum(vals)) / len(vals)
+        eff = INF if any(v == 0 for v in vals) else sum((F(1) / F(v) if v != INF else 0) for v in vals) / len(vals)
+        return lam, eff
+
+    order = [CP_FLAGS[int(k)] for k in r.permutation(4)]
+    for (dg, inf_) in order:
+        with np.errstate(all='ignore'), no_variants():
+            l_, e_, ecc_, rad_, dia_ = call(bct.charpath, Dt, include_diagonal=dg, include_infinite=inf_)
+        lam, eff = oracle(dg, inf_)
+        tag = '[include_diagonal=%s,include_infinite=%s]' % (dg, inf_)
+        ctx.check(fclose(l_, lam), 'charpath[nan/inf-entries]:mean' + tag, 'lambda=%r, mean of the selected entries=%s' % (float(l_), lam), case)
+        ctx.check(fclose(e_, eff), 'charpath[nan/inf-entries]:mean-inverse' + tag, 'efficiency=%r, mean inverse of the selected entries=%s' % (float(e_), eff), case)
+        check_ecc(ctx, Dv, n, dg, inf_, ecc_, rad_, dia_, case)
+        if not np.array_equal(Dt, D0, equal_nan=True):
+            ctx.fail('charpath:no-mutation', "the caller's distance matrix was modified by charpath%s" % tag, case)
+            Dt = D0.copy()
+        B_.add('charpathx ' + enc_mat(Dv, enc_dval) + ' %d %d' % (int(dg), int(inf_)), 'charpath', case, (l_, e_))
+    with no_variants():
+        check_charpath_defaults(ctx, bct, Dt, oracle, case)
 
 
 def fclose(x, want, tol=1e-9):
@@ -490,6 +590,8 @@ def do_binary(ctx, bct, A, fam, B_, with_model=True, light=False):
             ctx.fail('agree:%s/%s' % (a, b), 'the two routines return different distances on a binary graph', case)
     if not np.array_equal(Bw[o][np.isfinite(S[o])], S[o][np.isfinite(S[o])]) or not np.array_equal(Hh[o][np.isfinite(S[o])], S[o][np.isfinite(S[o])]):
         ctx.fail('agree:edge-count/binary', 'on a binary graph the edge counts must equal the distances', case)
+    if not light:
+        check_breadth(ctx, bct, A, An, dist, case)
     ctx.check(np.array_equal(An, A0), 'distance:no-mutation', 'input modified', case)
     # --- means
     if n >= 2 and not light:
@@ -503,6 +605,8 @@ def do_binary(ctx, bct, A, fam, B_, with_model=True, light=False):
         ctx.check(fclose(ew, eff), 'efficiency_wei:mean-inverse', 'returned %r on a 0/1 matrix, mean inverse distance %s' % (float(ew), eff), case)
         if with_model:
             B_.add('effbin ' + enc_mat(A), 'eff', case, eb)
+            B_.add('effbinx ' + enc_mat(A), 'eff', case, eb)          # efficiency.py's own copy of the loop (C03_efficiency_own_loops)
+            B_.add('effweix ' + enc_mat(A, enc_q), 'eff', case, ew)
             B_.add('rout 0 ' + enc_mat(A, enc_q) + ' 0', 'rout', case, (ge, er))
     if with_model:
         B_.add('dbin ' + enc_mat(A), 'dbin', case, D)
@@ -573,6 +677,7 @@ def do_inv(ctx, bct, W, fam, B_, exact):
         ge, er, _ = call(bct.rout_efficiency, Wn.copy(), transform='inv')
         ctx.check(fclose(ge, eff), 'rout_efficiency[inv]:mean-inverse', 'returned %r, mean inverse distance %s' % (float(ge), eff), case)
         B_.add('effwei ' + enc_mat(W, enc_q), 'eff', case, ew)
+        B_.add('effweix ' + enc_mat(W, enc_q), 'eff', case, ew)
         B_.add('rout 1 ' + enc_mat(W, enc_q) + ' 0', 'rout', case, (ge, er))
 
 
@@ -691,6 +796,202 @@ def do_weighted_support(ctx, bct, W, fam, B_, with_model=True):
         B_.add('dbin ' + enc_mat(M), 'dbin', case, D)
         B_.add('breadthdist ' + enc_mat(M), 'rd', case, (np.asarray(R), Db))
         B_.add('reachdist ' + enc_mat(M), 'rd', case, (np.asarray(Rr), Dr))
+
+
+# ---------------------------------------------------------------- breadth (both outputs), larger n with the oracle only
+def check_breadth(ctx, bct, A, An, dist, case):
+    """breadth(CIJ, source) called directly: the distance vector (0 at the source, or the shortest cycle through it) and the
+    BFS tree `branch` (-1 at the source; for every other reached node a predecessor one level closer to the source)"""
+    n = len(A)
+    srcs = range(n) if n <= 4 else sorted({int(x) for x in ctx.nprng.randint(0, n, 2)})
+    for s in srcs:
+        d, br = call(bct.breadth, An.copy(), s)
+        d = np.asarray(d, dtype=float).ravel(); br = np.asarray(br, dtype=float).ravel()
+        cyc = min([dist[s][u] + 1 for u in range(n) if A[u][s] != 0 and dist[s][u] != INF] or [0])     # no cycle through s: stays 0
+        for v in range(n):
+            want = dist[s][v] if v != s else cyc
+            if not (d[v] == want):
+                ctx.fail('breadth:distance', 'source %d: distance[%d]=%r, BFS says %s' % (s, v, float(d[v]), want), case)
+                return
+        if br[s] != -1:
+            ctx.fail('breadth:branch', 'source %d: branch[source]=%r, documented -1' % (s, float(br[s])), case)
+            return
+        for v in range(n):
+            if v == s or dist[s][v] == INF:
+                continue
+            u = br[v]
+            if not (float(u).is_integer() and 0 <= u < n and A[int(u)][v] != 0 and dist[s][int(u)] == dist[s][v] - 1):
+                ctx.fail('breadth:branch', 'source %d: branch[%d]=%r is not a predecessor of %d on a shortest path (level %s)'
+                         % (s, v, float(u), v, dist[s][v]), case)
+                return
+
+
+def exact_h_np(Ln):
+    """the exact-h table with numpy (min-plus products; exact for integer lengths): E[s, h, t], h = 0..n-1; 0 = no edge"""
+    n = len(Ln)
+    W = np.where(Ln != 0, Ln, INF)
+    E = np.full((n, max(2, n), n), INF)
+    E[np.arange(n), 0, np.arange(n)] = 0
+    for h in range(1, max(2, n)):
+        E[:, h, :] = (E[:, h - 1, :, None] + W[None, :, :]).min(axis=1)
+    return E
+
+
+def do_weighted_large(ctx, bct, n, p, und):
+    """distance_wei / distance_wei_floyd / efficiency_wei on n = 12..40 nodes (many nodes at the same tentative distance at once
+    in Dijkstra's V), integer lengths with many ties; independent oracle only (no model line)"""
+    r = ctx.nprng
+    vals = ([1, 2], [1, 2, 3, 4], [1, 2, 4])[int(r.randint(3))]
+    Ln = np.zeros((n, n))
+    for i in range(n):
+        for j in range(n):
+            if i != j and r.rand() < p:
+                Ln[i, j] = vals[int(r.randint(len(vals)))]
+    if und:
+        Ln = np.triu(Ln) + np.triu(Ln).T
+    if n >= 3:
+        k = int(r.randint(n)); Ln[k, :] = 0; Ln[:, k] = 0          # an isolated node
+    case = {'kind': 'lengths-large', 'L': [[int(x) for x in row] for row in Ln.tolist()]}
+    E = exact_h_np(Ln)
+    dist = E[:, 1:, :].min(axis=1)
+    dist[np.arange(n), np.arange(n)] = 0
+    ctx.case(case, nontrivial=True)
+    ctx.count('wei-large:n=%d' % n); ctx.count('wei-large:' + ('und' if und else 'dir'))
+    Dw, Bw = call(bct.distance_wei, Ln.copy(), _t=60.0)
+    check_D(ctx, 'distance_wei', Dw, dist, case); check_hops(ctx, 'distance_wei', Bw, E, dist, case)
+    S, Hh, P = call(bct.distance_wei_floyd, Ln.copy(), _t=60.0)
+    check_D(ctx, 'distance_wei_floyd', S, dist, case); check_hops(ctx, 'distance_wei_floyd', Hh, E, dist, case)
+    # weights 1/length (dyadic when the lengths are powers of two, else tolerance) for efficiency_wei / rout_efficiency[inv]
+    Wn = np.where(Ln != 0, 1.0 / np.where(Ln != 0, Ln, 1.0), 0.0)
+    eff = sum((F(1, int(d)) for d in dist[~np.eye(n, dtype=bool)] if d != INF), F(0)) / (n * n - n)
+    ew = call(bct.efficiency_wei, Wn.copy(), _t=60.0)
+    ctx.check(fclose(ew, eff), 'efficiency_wei:mean-inverse', 'returned %r, mean inverse distance (lengths 1/w) %s' % (float(ew), eff), case)
+    ge = call(bct.rout_efficiency, Wn.copy(), transform='inv', _t=60.0)[0]
+    ctx.check(fclose(ge, eff), 'rout_efficiency[inv]:mean-inverse', 'returned %r, mean inverse distance %s' % (float(ge), eff), case)
+    eb = call(bct.efficiency_bin, (Ln != 0).astype(float), _t=60.0)
+    Eb = exact_h_np((Ln != 0).astype(float))
+    db = Eb[:, 1:, :].min(axis=1)
+    effb = sum((F(1, int(d)) for d in db[~np.eye(n, dtype=bool)] if d != INF), F(0)) / (n * n - n)
+    ctx.check(fclose(eb, effb), 'efficiency_bin:mean-inverse', 'returned %r, mean inverse hop distance %s' % (float(eb), effb), case)
+
+
+# ---------------------------------------------------------------- reachdist: storage of the argument, large dense blocks
+REACH_STORAGE_KEY = 'reachdist[integer-or-bool-storage]:returns'
+REACH_OVERFLOW_KEY = 'reachdist[walk-count-overflow]:unreachable-pair-reported-reachable'
+STORAGE_DTYPES = {'int64': np.int64, 'int8': np.int8, 'uint8': np.uint8, 'bool': np.bool_}
+
+
+def do_int_storage(ctx, bct, A, dt):
+    """The five distance routines on the SAME 0/1 network stored as an integer / bool array (called with exactly this array:
+    the representation layer is bypassed).  Judged by the BFS oracle only."""
+    n = len(A)
+    case = {'kind': 'binary-integer-storage', 'A': A, 'dtype': dt}
+    dist = bfs_all(A)
+    ctx.case(case, nontrivial=any(dist[s][t] != INF for s in range(n) for t in range(n) if s != t))
+    ctx.count('storage:' + dt)
+    An = np.array(A, dtype=STORAGE_DTYPES[dt]).reshape(n, n)
+    A0 = An.copy()
+    tag = '[%s-storage]' % dt
+    with no_variants():
+        for fn, f, diag0 in (('distance_bin', lambda: (None, bct.distance_bin(An)), True),
+                             ('breadthdist', lambda: bct.breadthdist(An), False),
+                             ('distance_wei', lambda: (None, bct.distance_wei(An)[0]), True),
+                             ('distance_wei_floyd', lambda: (None, bct.distance_wei_floyd(An)[0]), True),
+                             ('reachdist', lambda: bct.reachdist(An), False)):
+            try:
+                R, D = call(f)
+            except Timeout:
+                raise
+            except Exception as e:
+                ctx.fail(REACH_STORAGE_KEY if fn == 'reachdist' else fn + tag + ':returns',
+                         '%s raises %s: %s on a %d-node 0/1 matrix stored as %s (it returns on the same values stored as float64)'
+                         % (fn, type(e).__name__, str(e)[:120], n, dt), case)
+                continue
+            D = np.asarray(D, dtype=float)
+            check_D(ctx, fn + tag, D, dist, case, diag_zero=diag0)
+            if R is not None:
+                check_R(ctx, fn + tag, R, D, dist, case)
+                check_diag_cycle(ctx, fn + tag, R, D, A, dist, case)
+    ctx.check(np.array_equal(An, A0) and An.dtype == A0.dtype, 'distance:no-mutation', 'integer/bool input modified', case)
+
+
+def bfs_all_np(S):
+    """per-source BFS on a boolean support matrix, level by level (independent of the library; for n in the hundreds)"""
+    n = len(S)
+    out = np.full((n, n), INF)
+    for s in range(n):
+        seen = np.zeros(n, dtype=bool); seen[s] = True
+        fr = seen.copy()
+        out[s, s] = 0
+        d = 0
+        while fr.any():
+            d += 1
+            nx = S[fr].any(axis=0) & ~seen
+            out[s, nx] = d
+            seen |= nx
+            fr = nx
+    return out
+
+
+def do_reach_large(ctx, bct, n, h, p, with_breadth=False):
+    """A digraph of n ~ 170..260 nodes with a dense strongly connected part and pairs that are NOT reachable: nodes >= h have no
+    connection to nodes < h (p = 1: two complete blocks joined one way; p < 1: random density p).  reachdist raises its matrix
+    power to n+1 there, so the walk counts exceed binary64 (inf * 0 = nan, `nan != 0`): the unreachable pairs must still be
+    reported unreachable.  Oracle: BFS.  The matrix is described by its construction (the case stays small)."""
+    r = ctx.nprng
+    seed = int(r.randint(1 << 30))
+    if p >= 1:
+        An = np.ones((n, n)) - np.eye(n)
+        how = 'A = np.ones((n,n)) - np.eye(n); A[h:, :h] = 0'
+    else:
+        An = (np.random.RandomState(seed).rand(n, n) < p).astype(float)
+        np.fill_diagonal(An, 0)
+        how = 'A = (np.random.RandomState(seed).rand(n,n) < p).astype(float); np.fill_diagonal(A, 0); A[h:, :h] = 0'
+    An[h:, :h] = 0
+    case = {'kind': 'large-dense-with-unreachable-pairs', 'n': n, 'h': h, 'p': p, 'seed': seed, 'construction': how}
+    ctx.case(case, nontrivial=True)
+    ctx.count('reach-large:n=%d' % n)
+    S = An != 0
+    dist = bfs_all_np(S)
+    off = ~np.eye(n, dtype=bool)
+    # shortest cycle through s: 1 + min over predecessors u of dist[s,u]
+    cyc = np.array([min([dist[s, u] + 1 for u in np.nonzero(S[:, s])[0]] or [INF]) for s in range(n)])
+    want = dist.copy()
+    want[~off] = cyc
+
+    def judge(fn, R, D, overflow_key=None):
+        D = np.asarray(D, dtype=float)
+        unreach = ~np.isfinite(want)
+        bad = unreach & (np.isfinite(D) | (np.asarray(R, dtype=bool) if R is not None else False) | np.isnan(D))
+        if bad.any():
+            s, t = [int(x) for x in np.argwhere(bad)[0]]
+            ctx.fail(overflow_key or fn + ':inf-iff-unreachable',
+                     'pair (%d,%d) is unreachable (BFS) but returned distance %r%s; %d such pairs'
+                     % (s, t, float(D[s, t]), '' if R is None else ', reach flag %r' % bool(np.asarray(R)[s, t]), int(bad.sum())), case)
+            return False
+        m = off if R is None else np.ones((n, n), dtype=bool)
+        wrong = m & ~unreach & ~(D == want)
+        if wrong.any():
+            s, t = [int(x) for x in np.argwhere(wrong)[0]]
+            ctx.fail(fn + ':min-length', 'pair (%d,%d): returned %r, BFS distance %r' % (s, t, float(D[s, t]), float(want[s, t])), case)
+            return False
+        if R is not None and not np.array_equal(np.asarray(R, dtype=bool), np.isfinite(want)):
+            ctx.fail(fn + ':reach-flag', 'reach flag differs from BFS reachability', case)
+            return False
+        if R is None and not (np.diag(D) == 0).all():
+            ctx.fail(fn + ':diag-zero', 'nonzero diagonal', case)
+            return False
+        return True
+
+    A0 = An.copy()
+    Rr, Dr = call(bct.reachdist, An.copy(), _t=60.0)
+    judge('reachdist[large-dense]', Rr, Dr, REACH_OVERFLOW_KEY)
+    Db = call(bct.distance_bin, An.copy(), _t=60.0)
+    judge('distance_bin[large-dense]', None, Db)
+    if with_breadth:
+        Rb, Dd = call(bct.breadthdist, An.copy(), _t=120.0)
+        judge('breadthdist[large-dense]', Rb, Dd)
+    ctx.check(np.array_equal(An, A0), 'distance:no-mutation', 'input modified', case)
 
 
 # ---------------------------------------------------------------- correspondence
@@ -859,4 +1160,25 @@ def run(ctx):
             if not und:
                 W[n - 1][int(r.randint(n // 2))] = eps        # a long directed cycle with a tail
             do_weighted_support(ctx, bct, W, 'tiny-chain-und' if und else 'tiny-chain-dir', B_, with_model=(n <= 40 or ctx.thorough))
+    # 4b. charpath on matrices with nan / inf entries and a nonzero diagonal: all flags + default arguments (model: charpath_x)
+    for rep in range(ctx.scale(8, 60)):
+        for n in range(1, 7):
+            do_charpath_x(ctx, bct, n, B_)
+    # 4c. n = 12..40 for distance_wei / distance_wei_floyd / efficiency_* with the oracle only
+    for n in ((12, 20, 40) if not ctx.thorough else (12, 16, 20, 28, 34, 40)):
+        for p_, und in ((0.1, True), (0.5, False)) if not ctx.thorough else ((0.08, True), (0.1, False), (0.3, True), (0.6, False)):
+            do_weighted_large(ctx, bct, n, p_, und)
+    # 5. the same 0/1 network stored as an integer / bool array (BFS oracle only)
+    do_int_storage(ctx, bct, [[0, 1], [0, 0]], 'int64')
+    for dt in STORAGE_DTYPES:
+        for rep in range(ctx.scale(2, 8)):
+            n = int(r.randint(2, 7))
+            p = (0.2, 0.4, 0.7)[int(r.randint(3))]
+            do_int_storage(ctx, bct, [[int(i != j and r.rand() < p) for j in range(n)] for i in range(n)], dt)
+    # 6. large dense digraphs with unreachable pairs (walk counts of reachdist exceed binary64 from n ~ 166 on); BFS oracle only
+    n = int(r.randint(166, 177))
+    do_reach_large(ctx, bct, n, int(r.randint(n // 3, 2 * n // 3)), 1.0, with_breadth=ctx.thorough)
+    if ctx.thorough:
+        do_reach_large(ctx, bct, 260, 130, 0.15)
+        do_reach_large(ctx, bct, 200, int(r.randint(60, 140)), 0.5)
     compare_models(ctx, B_)
